@@ -109,10 +109,10 @@ for _v, _cy in (("py", False), ("cy", True)):
         calls={
             "self.project.isWorkingTime": ("spec", ["self", "i"], "IsWT(self, i)"),
             "self.project.idxToDate": ("spec", ["self", "i"], "ite(self.attributes['start'] is None, None, PT(self, i))"),
-            "self._convert_to_timezone": ("spec", ["self", "d", "tz"], "dt(secs(d) + ite(tz == '', 0, uf_tzoff(tz, secs(d))))"),
+            "self._convert_to_timezone": ("contract", WH + "::WorkingHours._convert_to_timezone"),
             "check_working_hours_fast": ("contract", WCY + "::check_working_hours_fast"),
         },
-        note="_convert_to_timezone is TRUSTED as utc + offset(zone, utc) (zoneinfo external, A-tz); "
+        note="_convert_to_timezone is used through its verified contract (zoneinfo itself is external, A-tz); "
              "Project.idxToDate/isWorkingTime are used through their contracts' functional form",
     )
 
@@ -127,4 +127,34 @@ contract(
     loops={0: {"inv": [("acc", "-1499 * _i <= total_minutes and total_minutes <= 1499 * _i")]}},
     locals={"total_minutes": Int},
     note="functional equality with WorkingHours.get_daily_hours is checked by the pair lemma below",
+)
+
+# ---- time-zone conversion: the only place where zoneinfo is consulted ----------------------------------------------
+# trusted external contracts: ZoneInfo(name) raises exactly for unknown zone names; aware.astimezone(zone) is
+# utc + offset(zone, utc instant) -- the offset is a function of the INSTANT, not of the day (A-tz)
+fields_of("ZoneInfo", key=Str)
+contract("extern::zoneinfo.ZoneInfo", trusted=True, props=["C02"], params={"name": Str}, ret=Ref("ZoneInfo"),
+         raises={"Exception": "not uf_tzvalid(name)"},
+         ensures=[("same", "result.key == name")],
+         note="zoneinfo.ZoneInfo(key): raises (ZoneInfoNotFoundError/ValueError) iff the key is not a known zone")
+contract("extern::datetime.astimezone", trusted=True, props=["C02"], params={"self": DT, "tz": Ref("ZoneInfo")}, ret=DT,
+         ensures=[("offset", "secs(result) == secs(self) + uf_tzoff(tz.key, secs(self))")],
+         note="aware_utc.astimezone(zone): wall-clock reading = utc + utcoffset(zone, instant)")
+
+contract(
+    WH + "::WorkingHours._convert_to_timezone", props=["C02", "C14"],
+    params={"self": Ref("WorkingHours"), "dt": DT, "timezone_str": Str}, ret=Opt(DT),
+    consts={"HAS_ZONEINFO": True, "HAS_PYTZ": False},
+    ensures=[("total", "not isnone(result)"),
+             ("unified", "secs(some(result)) == secs(dt) + ite(timezone_str == '', 0, uf_tzoff(timezone_str, secs(dt)))"),
+             ("utc", "implies(timezone_str == '' or not uf_tzvalid(timezone_str), secs(some(result)) == secs(dt))"),
+             # C02: local time of a slot = its own instant + the zone's offset AT THAT INSTANT
+             ("exact", "implies(timezone_str != '' and uf_tzvalid(timezone_str), "
+                       "secs(some(result)) == secs(dt) + uf_tzoff(timezone_str, secs(dt)))")],
+    calls={"zoneinfo.ZoneInfo": ("contract", "extern::zoneinfo.ZoneInfo"),
+           "utc_dt.astimezone": ("contract", "extern::datetime.astimezone"),
+           "dt_timezone.utc": ("const", 0)},
+    assumes=["implies(not uf_tzvalid(timezone_str), uf_tzoff(timezone_str, secs(dt)) == 0)"],
+    modifies=[],
+    note="the offset function is by convention 0 for names that are not zones; verified for the zoneinfo branch (HAS_ZONEINFO is True on every supported interpreter >= 3.9)",
 )
